@@ -156,10 +156,7 @@ def check(pm: ProgramModel, ctx: Ctx) -> None:
                     it = Interp(pm)
                     badn = []
                     for c_ref, c in zip(ref._f["ctcs"], model._f["ctcs"]):
-                        if _has_aggregate(c_ref._f["_ast"]._f["root"]):
-                            continue    # operands of aggregate functions: whether they count as
-                            #             "feature names written in it" is not settled by the property
-                        want = sorted({x for x in names_of(c_ref._f["_ast"]._f["root"]) if _is_name(x)})
+                        want = sorted({x for x in _feature_names(c_ref._f["_ast"]._f["root"]) if _is_name(x)})
                         try:
                             got = sorted(it.call(gf, [c]))
                         except AbsRaise as exc:
@@ -173,6 +170,21 @@ def check(pm: ProgramModel, ctx: Ctx) -> None:
     sites(pm, ctx, executed)
     mechanism(pm, ctx, mb)
     ctx.floor("C02", "obligations", len(ctx.obligations), 30)
+
+
+def _feature_names(n: Any) -> list[str]:
+    """Names of features written in an expression tree: every name term, except the first operand of
+    sum/avg, which names an attribute."""
+    from ..logic import opname
+    if not isinstance(n, AObj):
+        return []
+    op = opname(n)
+    if op is None:
+        d = n._f.get("data")
+        return [d] if isinstance(d, str) else []
+    if op in ("SUM", "AVG"):
+        return _feature_names(n._f.get("right"))
+    return _feature_names(n._f.get("left")) + _feature_names(n._f.get("right"))
 
 
 def _has_aggregate(n: Any) -> bool:
